@@ -418,6 +418,56 @@ def epoch_rules(ctx):
     guarded(ctx, "EBR.activity", R + "scan::all_threads::type::scan::(lambda0)::operator()", le, crit, True, label="epoch|in-critical",
             why="a thread outside a critical region (or exited) must not prevent the epoch from advancing")
     guarded(ctx, "EBR.activity", R + "scan::n_threads::type::scan", le, crit, True, label="epoch|in-critical")
+    # which retire lists are emptied when the thread observes a new epoch - finite execution of update_local_epoch
+    from .evalx import run_until, evalx as _evalx, Unknown as _Unknown
+    ctx.rule("EBR.epoch-slots", "update_local_epoch(new): for every old local epoch o and new epoch n (o < n <= o+7, finite execution): exactly the retire lists of the slots "
+                                "(n - i) mod number_epochs, 0 <= i < min(number_epochs, n - o), are emptied and local_epoch_idx ends as n mod number_epochs - the slot index "
+                                "must stay a function of the ABSOLUTE epoch because orphaned lists are filed under absolute epoch slots")
+    for fn in flow._shapes(ctx, TD + "update_local_epoch"):
+        steals = flow.find(fn, call("steal"))
+        if not steals or not fn.params:
+            ctx.broken.append("update_local_epoch: retire list hand-over (steal) not found")
+            continue
+        ne = None
+        for x in fn.nodes:
+            if isinstance(x.get("v"), int) and (x.get("name", "").endswith("number_epochs") or x.get("leaf") == "number_epochs"):
+                ne = x["v"]
+        if not ne:
+            ctx.broken.append("update_local_epoch: number_epochs not found")
+            continue
+        bad = None
+        try:
+            for o in range(0, 2 * ne):
+                for n_ in range(o + 1, o + 8):
+                    got = []
+                    final = {}
+
+                    def on_event(f, e, env, got=got, final=final):
+                        nn = f.nodes[e]
+                        if e in steals:
+                            obj = f.kids(e)[0]
+                            for x in f.subtree(obj):
+                                if f.nodes[x]["k"] == "index" or (f.nodes[x]["k"] == "call" and f.nodes[x].get("callee", "").endswith("operator[]")):
+                                    got.append(_evalx(f, f.kids(x)[1], env))
+                                    break
+                        elif nn["k"] == "bin" and nn["op"] == "=" and f.nodes[f.kids(e)[0]]["k"] == "member" and f.nodes[f.kids(e)[0]].get("leaf") == "local_epoch_idx":
+                            final["idx"] = _evalx(f, f.kids(e)[1], env)
+                    env0 = {fn.params[0]["name"]: n_, "load:local_epoch": o, "this.local_epoch_idx": o % ne, "local_epoch_idx": o % ne}
+                    run_until(fn, env0, lambda f, e: False, on_event=on_event)
+                    want = sorted((n_ - i) % ne for i in range(min(ne, n_ - o)))
+                    if sorted(got) != want or final.get("idx") != n_ % ne:
+                        bad = (o, n_, sorted(got), want, final.get("idx"), n_ % ne)
+                        raise StopIteration
+        except StopIteration:
+            pass
+        except _Unknown as ex:
+            ctx.broken.append("update_local_epoch not executable (%s)" % ex)
+            continue
+        ctx.exhaustive["EBR.epoch-slots"] = True
+        ctx.check(bad is None, "EBR.epoch-slots", TD + "update_local_epoch#slots", "emptied slots and final slot index agree with the absolute epoch for all (old, new) pairs",
+                  "advancing the local epoch from %s to %s empties the retire lists of slots %s (expected %s) and leaves local_epoch_idx = %s (expected %s = new mod number_epochs): "
+                  "the thread's slot index drifts away from the absolute epoch, so nodes it hands over at exit / abandonment are filed under a slot that is freed one or two "
+                  "epochs too early (destroyed while a reader that entered in the retirement epoch still holds a guard)" % (bad or (0, 0, [], [], 0, 0)), fn.where(steals[0]), fn=fn)
     # incremental scan (DEBRA style): the block whose state licenses the advance of the cursor is the block the cursor designates NOW
     ctx.rule("EBR.scan-cursor", "incremental epoch scan (scan::n_threads): the control block that is tested is the one the cursor currently designates - a local alias "
                                 "of *thread_iterator is re-evaluated after every advance of the cursor; the scan reports completion only when the cursor reached the end")
